@@ -63,6 +63,17 @@ class Maildir(_Maildir):
     def _update(self, key: str, subpath: str) -> None:
         self._toc[key] = subpath  # type: ignore
 
+    def _dump_message(self, message: Any, target: Any,
+                      mangle_from_: bool = False) -> None:
+        # a message carrying its original bytes is stored verbatim, instead
+        # of being re-generated (which rewrites line endings and headers)
+        raw: bytes | None = getattr(message, 'raw_literal', None)
+        if raw is not None:
+            target.write(raw)
+        else:
+            super()._dump_message(  # type: ignore
+                message, target, mangle_from_)
+
     def claim_new(self) -> Iterable[str]:
         """Checks for messages in the ``new`` subdirectory, moving them to
         ``cur`` and returning their keys.
@@ -147,11 +158,11 @@ class Message(BaseMessage):
                 or requirement.has_none(FetchRequirement.CONTENT):
             return LoadedMessage(self, requirement, None)
         try:
-            maildir_msg = self._maildir.get_message(self._key)
+            literal = self._maildir.get_bytes(self._key)
         except (KeyError, FileNotFoundError):
             return LoadedMessage(self, requirement, None)
         else:
-            content = MessageContent.parse(bytes(maildir_msg))
+            content = MessageContent.parse(literal)
             return LoadedMessage(self, requirement, content)
 
     @classmethod
@@ -166,7 +177,8 @@ class Message(BaseMessage):
                    maildir_flags: MaildirFlags) -> MaildirMessage:
         flag_str = maildir_flags.to_maildir(append_msg.flag_set)
         when = append_msg.when or datetime.now()
-        maildir_msg = MaildirMessage(append_msg.literal)
+        maildir_msg = MaildirMessage()
+        maildir_msg.raw_literal = append_msg.literal  # type: ignore
         maildir_msg.set_flags(flag_str)
         maildir_msg.set_subdir('new' if recent else 'cur')
         maildir_msg.set_date(when.timestamp())
@@ -286,10 +298,12 @@ class MailboxData(MailboxDataInterface[Message]):
             record, _ = await self._get_maildir_msg(uid)
             async with self.messages_lock.read_lock():
                 # the metadata-only message has no content to copy
-                maildir_msg = self._maildir.get_message(record.key)
+                maildir_msg = self._maildir.get_message_metadata(record.key)
+                literal = self._maildir.get_bytes(record.key)
         except (KeyError, FileNotFoundError):
             return None
         copy_msg = MaildirMessage(maildir_msg)
+        copy_msg.raw_literal = literal  # type: ignore
         copy_msg.set_subdir('new' if recent else 'cur')
         async with UidList.with_write(destination._path) as uidl:
             async with destination.messages_lock.write_lock():
